@@ -4,6 +4,7 @@ import (
 	"context"
 	"encoding/json"
 	"fmt"
+	"strings"
 	"sync"
 	"time"
 
@@ -94,7 +95,78 @@ func c03Root(fixture string, queries int) func() {
 	}
 }
 
+// c03StalledRoot: one block of more than 1 MiB of row data with more matching rows than the
+// cursor buffers, a consumer that begins to read only after every worker is parked, then a
+// second query over the same file. Every row of both queries must equal the stored one (the
+// deterministic pool hands a buffer released early straight to the next scan, and reports a
+// buffer released twice).
+func c03StalledRoot(fixture string, second bool) func() {
+	return func() {
+		data, meta := loadFixture(fixture)
+		cfg := baseConfig()
+		cfg.MaxQueryConcurrency = 2
+		eng, err := bs.NewBloomSearchEngine(cfg, meta, data)
+		if err != nil {
+			vapi.Fail("config: %v", err)
+			return
+		}
+		drain := func(q int, res *bs.Results) {
+			n := 0
+			for res.Next() {
+				r := res.Row()
+				want := fmt.Sprintf("w%d", n)
+				if r["k"] != "hit" || len(fmt.Sprint(r["pad"])) != bigPad || (fixtureHits[fixture] > 64 && fmt.Sprint(r["id"]) != want) {
+					vapi.Fail("C03: query %d row %d is id=%v k=%v len(pad)=%d, stored row has id=%s k=hit len(pad)=%d", q, n, r["id"], r["k"], len(fmt.Sprint(r["pad"])), want, bigPad)
+					return
+				}
+				n++
+			}
+			if err := res.Err(); err != nil {
+				vapi.Fail("C03: query %d failed: %v", q, err)
+			}
+			if n != fixtureHits[fixture] {
+				vapi.Fail("C03: query %d returned %d rows, want %d", q, n, fixtureHits[fixture])
+			}
+		}
+		res, err := eng.Query(context.Background(), bs.NewQuery().Token("hit").Build())
+		if err != nil {
+			vapi.Fail("Query: %v", err)
+			return
+		}
+		vapi.Quiesce() // scan finished or parked behind the full cursor buffer
+		var wg sync.WaitGroup
+		if second {
+			wg.Add(1)
+			go func() {
+				defer wg.Done()
+				r2, err := eng.Query(context.Background(), bs.NewQuery().Token("hit").Build())
+				if err != nil {
+					vapi.Fail("Query: %v", err)
+					return
+				}
+				drain(1, r2)
+			}()
+		}
+		drain(0, res)
+		wg.Wait()
+		r3, err := eng.Query(context.Background(), bs.NewQuery().Token("hit").Build())
+		if err != nil {
+			vapi.Fail("Query: %v", err)
+			return
+		}
+		drain(2, r3)
+	}
+}
+
+const bigPad = 4300
+
 func init() {
+	var big []map[string]any
+	for i := 0; i < 266; i++ { // four full delivery batches fill the cursor buffer, the final partial one parks
+		big = append(big, map[string]any{"id": fmt.Sprintf("w%d", i), "p": "x", "k": "hit", "pad": strings.Repeat(string(rune('a'+i%26)), bigPad)})
+	}
+	setupBig := buildFixture("bigblock", [][]map[string]any{big})
+	fixtureHits["bigblock"] = 266
 	rows := [][]map[string]any{
 		append(hitRows("a", "x", 3), hitRows("b", "y", 2)...),
 		append(hitRows("c", "x", 2), hitRows("d", "y", 1)...),
@@ -131,6 +203,11 @@ func init() {
 			}
 			out = append(out, s)
 		}
+		fixtureCompression["bigblock"] = bs.CompressionSnappy
+		out = append(out, Scenario{Prop: "C03", Name: "bigblock-stalled", Root: c03StalledRoot("bigblock", false), Setup: setupBig, Horizon: time.Second,
+			Sched: 0, DelayBound: true, PoolPoints: true, MaxSteps: 2000000})
+		out = append(out, Scenario{Prop: "C03", Name: "bigblock-stalled-second", Root: c03StalledRoot("bigblock", true), Setup: setupBig, Horizon: time.Second,
+			Sched: 1, DelayBound: true, PoolPoints: true, MaxSteps: 2000000})
 		return out
 	}
 }
